@@ -95,3 +95,80 @@ while True:
 """, opts={"use_push_pop_functions": True, "inline_functions": False})
 raw("D28-function-named-like-logic-type", "C05", {"src": {"": HDR + "def Setting():\n    db.Setting = d0.Setting\nwhile True:\n    Setting()\n    Setting()\n    yield_()\n"},
     "env_seeds": [1], "pool": POOL, "opts": {}, "names": ["Setting"]})
+# ---- regression witnesses of repaired defects (status "fixed: ..."): these must pass
+raw("FX-D6-bool-spelling", "C09", {"kind": "program", "src": {"": HDR + "db.Setting = not 0\nd1.Setting = not 5\n"}, "opts": {}})
+raw("FX-D7-or-folded-as-and", "C03", {"kind": "trees", "style": 0, "rendered": [["({0} or {1})", ["0", "1"]], ["({0} or {1})", ["1", "0"]]]})
+prog("FX-D8-if-not-constant", "C01", """
+while True:
+    if not (0.5 > -10):
+        db.Setting = 1
+    else:
+        db.Setting = 2
+    yield_()
+""")
+prog("FX-D4-continue-in-for-range", "C01", """
+while True:
+    for i in range(3):
+        if d0.On > 0:
+            continue
+        db.Setting = i
+    yield_()
+""")
+prog("FX-D27-break-continue-in-list-loop", "C01", """
+while True:
+    for v in [1, 2, 5]:
+        if d0.On > 1:
+            continue
+        if d1.On > 5:
+            break
+        db.Setting = v
+    yield_()
+""")
+prog("FX-D9-registerless-intermediate", "C04", """
+g = d0.Setting
+def f0(a):
+    b = a + d1.Setting
+    c = b * 2
+    db.Setting = c
+def f1():
+    f0(1)
+    f0(2)
+while True:
+    f1()
+    f1()
+    db.Setting = g
+    yield_()
+""", opts={})
+raw("FX-D12-label-substring", "C05", {"src": {"": HDR + "def update():\n    db.Setting = d0.Setting\ndef update_display():\n    d1.Setting = HASH(\"update\")\n    update()\n    update()\nwhile True:\n    update_display()\n    update_display()\n    yield_()\n"},
+    "env_seeds": [1], "pool": POOL, "opts": {}, "names": ["update", "update_display"]})
+raw("FX-D14-constexpr-child-left", "C10", {"src": HDR + "@constexpr\ndef cx(a):\n    while True:\n        pass\n    return a\nd0.Setting = cx(1)\n", "opts": None, "family": "constexpr-body", "constexpr_calls": 1})
+raw("FX-D15-directive-mutates-options", "C15", {"src": "# pytrapic: compact, no-append-version, __class__, __doc__\n" + HDR + "db.Setting = LogicType.Setting\n", "caller_bits": 16, "ndirectives": 1})
+raw("FX-D16-empty-program", "C17", {"src": {"": ""}, "opts": {}})
+prog("FX-D30-break-in-if", "C01", """
+while True:
+    yield_()
+    if d0.On > 0:
+        db.Setting = 1
+    else:
+        db.Setting = 3
+        break
+    db.Setting = 2
+db.Setting = 9
+""")
+prog("FX-D31-not-sdse", "C01", """
+while True:
+    if not sdse(d0):
+        db.Setting = 1
+    else:
+        db.Setting = 2
+    yield_()
+""", pool=[0.0, 1.0])
+raw("FX-D32-module-function-pop-ra", "C06", {"src": {"": HDR + "from library import tm\nwhile True:\n    tm.w(3, 4)\n    tm.w(3, 4)\n    tm.endx()\n    tm.endx()\n    yield_()\n",
+    "tm": HDR + "def w(p0, p1):\n    d2.Setting = 102 + p0\ndef endx():\n    d3.Setting = 103\n    w(7, 8)\n"},
+    "env_seeds": [1], "pool": POOL, "opts": {"use_push_pop_functions": True, "inline_functions": False}})
+raw("FX-D33-local-named-like-module", "C09", {"kind": "program", "src": {"": HDR + "from library import e\ndef w(p0):\n    for e in [1, 2, 5]:\n        d2.Setting = e + p0\nwhile True:\n    w(3)\n    w(4)\n    db.Setting = e.r1x(3)\n    yield_()\n",
+    "e": HDR + "def r1x(p0):\n    return 4 + d5.Setting\n"}, "opts": {}})
+raw("FX-module-global-lifetime", "C13", {"A": {"": HDR + "from library import m1\nwhile True:\n    db.Setting = m1.getv()\n    yield_()\n",
+    "m1": HDR + "cnt = 0\nacc = 0\ndef bump():\n    global acc\n    d2.Setting = cnt + 2\n    acc = acc + 1\n    d2.Setting = acc + 2\ndef getv():\n    bump()\n    bump()\n    return cnt + 3\n"},
+    "B": HDR + "m1_cnt = 0\nm1_acc = 0\ndef m1_bump():\n    global m1_acc\n    d2.Setting = m1_cnt + 2\n    m1_acc = m1_acc + 1\n    d2.Setting = m1_acc + 2\ndef m1_getv():\n    m1_bump()\n    m1_bump()\n    return m1_cnt + 3\nwhile True:\n    db.Setting = m1_getv()\n    yield_()\n",
+    "opts": {}})
